@@ -1,4 +1,7 @@
 RULES = [
+    ("C10-F3", "a constant result folded by the IR optimiser (Signal r = !0;) is emitted as an unnamed '<op>_N_folded' "
+               "constant with optimisation and as the named result without (same root cause as C01-F4)",
+     lambda c, d: c["tag"] == "S2" and not c["inputs"]),
     ("C10-F2", "the CSE key lacks the output mode: with optimisation '(bb > 0) : 1' is merged into '(bb > 0) : bb' and "
                "its result and anchor disappear; --no-optimize keeps both",
      lambda c, d: c["tag"] == "bundle-filter-mode"),
